@@ -6,7 +6,13 @@
 usage: seedconfirm.py <seed-dir>   (expects patch.diff and *_test.go demo files)
 Writes confirm.json into the seed dir and prints a verdict."""
 import glob, json, os, re, shutil, subprocess, sys, tempfile
-ENV = dict(os.environ, GOFLAGS="-mod=mod", GOPROXY="off", GOSUMDB="off", GOTOOLCHAIN="local", GOWORK="off")
+import atexit as _atexit, tempfile as _tempfile, shutil as _shutil
+_OWN_CACHE = None
+if not os.environ.get("VERIF_GOCACHE"):
+    _OWN_CACHE = _tempfile.mkdtemp(prefix="shovelseed-gocache.")
+    _atexit.register(lambda: _shutil.rmtree(_OWN_CACHE, ignore_errors=True))
+ENV = dict(os.environ, GOFLAGS="-mod=mod -trimpath", GOPROXY="off", GOSUMDB="off", GOTOOLCHAIN="local", GOWORK="off",
+           GOCACHE=os.environ.get("VERIF_GOCACHE") or _OWN_CACHE)
 PKGDIR = {"jrpc2": "jrpc2", "shovel": "shovel", "dig": "dig", "config": "shovel/config", "eth": "eth", "web": "shovel/web",
           "glf": "shovel/glf", "wpg": "wpg", "wctx": "wctx", "bint": "bint", "wstrings": "wstrings", "main": "cmd/shovel"}
 NEEDS_PG = {"dig", "shovel", "wpg", "web", "main"}
